@@ -500,6 +500,47 @@ def main(argv):
                           dict(replay_dict(b, txt(f), txt(want)), stream="c20-fmtlist"))
             break
 
+    # ---- history independence: the display text of a collection does not depend on whether the SAME object was
+    # rendered before by another function (to_string / join / string concatenation render plainly, format renders
+    # numbers in display form), for collections below and above small-size thresholds.  Round 4, seed C20-7: a
+    # render cache for lists / records of 16 or more elements keyed without the display flag.
+    def numsrc(b):
+        x = b2f(b)
+        if x != x:
+            return "(0/0)"
+        if x in (float("inf"), float("-inf")):
+            return "(1/0)" if x > 0 else "(-1/0)"
+        return "(%s)" % repr(x)
+    hist = []
+    pool = [b for b in (corpus + bnd)[:400]]
+    for n in (1, 3, 15, 16, 17, 40):
+        for k in range(3 if not thorough else 12):
+            xs = [numsrc(pool[(7 * k + 13 * i + n) % len(pool)]) for i in range(n)]
+            lit = "[" + ", ".join(xs) + "]"
+            rec = "{" + ", ".join("k%d: %s" % (i, x) for i, x in enumerate(xs)) + "}"
+            for obj in (lit, rec):
+                hist.append(("plain-then-format", "v = %s\nfresh = format(\"{}\", %s)\ns1 = to_string(v)\ns2 = \"\" + v\n"
+                             "after = format(\"{}\", v)\n[fresh == after, fresh, after]" % (obj, obj)))
+                hist.append(("format-then-plain", "v = %s\nfresh = to_string(%s)\ns1 = format(\"{} {}\", v, v)\n"
+                             "after = to_string(v)\n[fresh == after, fresh, after]" % (obj, obj)))
+            hist.append(("join-then-format", "v = %s\nfresh = format(\"{}\", %s)\ns1 = join(v, \";\")\nafter = format(\"{}\", v)\n"
+                         "[fresh == after, fresh, after]" % (lit, lit)))
+    houts = c.harness_lines_resilient(h, "eval", [c.hexs(p_) for _, p_ in hist])
+    hbad = 0
+    for (kind, prog), o in zip(hist, houts):
+        r = o.split(";ENV:")[0].split("|")[-1]
+        if r.startswith("OK:L[T,"):
+            continue
+        if r.startswith("ERR"):
+            continue            # e.g. "" + record is a type error: nothing was rendered twice
+        hbad += 1
+        if hbad <= 3:
+            res.violation("the text of a collection depends on how the same object was rendered before (%s)" % kind,
+                          {"kind": "impl-law", "program": prog, "observed": r, "expected": "OK:L[T,..] (fresh == after)"})
+    res.streams["HISTORY"] = {"programs": len(hist), "violations": hbad,
+                              "kinds": {k_: sum(1 for kk, _ in hist if kk == k_) for k_ in sorted({kk for kk, _ in hist})},
+                              "sizes": [1, 3, 15, 16, 17, 40]}
+
     # ---- model
     mism = []
     in_class = 0
